@@ -2,6 +2,7 @@
 import faulthandler
 import importlib
 import json
+import os
 import sys
 
 from . import core
@@ -31,6 +32,12 @@ def main():
         out.append(res.dump())
     with open(of, "w", encoding="utf-8") as fh:
         json.dump(out, fh, default=repr)
+        fh.flush()
+        os.fsync(fh.fileno())
+    # library threads that are blocked for good (reported by the job that saw them) must not keep the worker alive
+    sys.stdout.flush()
+    sys.stderr.flush()
+    os._exit(0)
 
 
 if __name__ == "__main__":
